@@ -232,6 +232,7 @@ func c14Transfer(cc c14Cell, env *Env) CellResult {
 			vclock.Reset()
 
 			exp, imp := &cache.HTTPTransfer{}, &cache.HTTPTransfer{}
+			exp.Logger, imp.Logger = c14Logger(assign+1), c14Logger(si)
 			expC, impC := map[string]xfer{}, map[string]xfer{}
 			before := map[string]map[string]xent{}
 
@@ -366,6 +367,27 @@ func pow3(n int) int {
 	return r
 }
 
+// errOnlyLogger implements just what cache.Logger requires: Error. (Warn, Important and Debug are optional
+// capabilities the library has to probe for.)
+type errOnlyLogger struct{ n *int }
+
+func (l errOnlyLogger) Error(ctx context.Context, msg string, kv ...interface{}) { *l.n++ }
+
+// c14Loggers: the importer / exporter logger is absent, minimal, or has every optional level.
+func c14Logger(i int) cache.Logger {
+	n := new(int)
+	f := func(ctx context.Context, msg string, kv ...interface{}) { *n++ }
+
+	switch i % 3 {
+	case 1:
+		return errOnlyLogger{n: n}
+	case 2:
+		return cache.NewLogger(f, f, f, f)
+	}
+
+	return nil
+}
+
 // c14Faults cuts the response body / fails the body read at EVERY byte offset.
 func c14Faults(cc c14Cell, env *Env) CellResult {
 	registerGob()
@@ -392,6 +414,8 @@ func c14Faults(cc c14Cell, env *Env) CellResult {
 				vclock.Reset()
 
 				exp, imp := &cache.HTTPTransfer{}, &cache.HTTPTransfer{}
+				// logger capability rotates with the offset: every offset is hit with every kind within 3 entry sets
+				exp.Logger, imp.Logger = c14Logger(off+si+2), c14Logger(off+si+1)
 				src, dst := newXfer(cc.Src), newXfer(cc.Dst)
 				c14Fill(src, cc.Src, set, "nx")
 				exp.AddCache("n", src.WDR())
@@ -807,7 +831,7 @@ func init() {
 		Cells: c14Cells, Run: c14Run,
 		Rule: "(transfer) all 27 assignments of three cache names (two of them need URL escaping) to exporter-only / importer-only / both, in every third case plus a cache under the empty name on both sides, x every entry set of <=2 entries over the C13 alphabet x backend pairing x request perturbation " +
 			"{none, types hash altered, types hash missing, name altered, name missing}, through an in-process RoundTripper that calls the Export handler (no sockets); " +
-			"(faults) the response body cut, and separately the body read failing, at EVERY byte offset; (hash) every registration sequence of length <=4 with repetitions over a pool of 4 types (struct, nested struct, map, and a struct registered through a pointer) (340) x every way of splitting it into variadic GobRegister calls, each in a fresh process",
+			"(faults) the response body cut, and separately the body read failing, at EVERY byte offset, with the loggers of both sides rotating through {none, Error-only, all levels}; (hash) every registration sequence of length <=4 with repetitions over a pool of 4 types (struct, nested struct, map, and a struct registered through a pointer) (340) x every way of splitting it into variadic GobRegister calls, each in a fresh process",
 		Assumptions: []string{
 			"net/http is used through Handler.ServeHTTP and a custom RoundTripper only; no scheduler is active",
 			"GobTypesHashReset is not part of the statement (fresh processes are) and is not used",
